@@ -533,7 +533,8 @@ def slice_dim(f, slicedef, fuzzydim=True):
             newlen = vout.shape[list(var.dimensions).index(dimkey)]
             newdim = outf.createDimension(dimkey, newlen)
             newdim.setunlimited(unlimited)
-            outf.variables[varkey] = vout
+            # a copy, not a view: writing into the result leaves the input
+            outf.variables[varkey] = vout.copy()
 
     history = getattr(outf, 'history', '')
     history += historydef
